@@ -129,7 +129,8 @@ def _zval(rng, n):
     return s.rstrip() + "x" if s != s.rstrip() or not s else s
 
 
-def make_case2(rng, n_records, n_chrom=1, untagged_frac=0.25, ref_mode="any", tag_mode="mixed", pad=0, dup_frac=0.0, max_steps=3, max_len=3):
+def make_case2(rng, n_records, n_chrom=1, untagged_frac=0.25, ref_mode="any", tag_mode="mixed", pad=0, dup_frac=0.0, max_steps=3, max_len=3,
+               half_tagged_frac=0.0):
     """like make_case with more control: ref_mode any | all (every alignment touches a rank-0 node) | some_unknown (at least one touches none);
     tag_mode see rich_tags; pad = length of a padding Z field (bulk for multi-block BGZF); dup_frac = share of byte-identical repeated lines"""
     for _try in range(200):
@@ -142,6 +143,12 @@ def make_case2(rng, n_records, n_chrom=1, untagged_frac=0.25, ref_mode="any", ta
     else:
         raise RuntimeError("no graph with a walk off the reference")
     tag_graph(rng, g, untagged_frac)
+    if half_tagged_frac:
+        # nodes with only one of the two tags set to -1 (order_gfa does not produce them; "scaffold = BO != -1 and NO == 0" is applied literally)
+        for s in g.segs:
+            if rng.random() < half_tagged_frac:
+                s.bo, s.no = rng.choice([(-1, 0), (-1, 0), (rng.randint(0, 3), -1), (-1, 1)])
+                s.extra = tuple(s.extra[:-2]) + ("BO:i:%d" % s.bo, "NO:i:%d" % s.no)
     withref = [w for w in walks if any(g.by_id[n].sr == 0 for n, _ in w)]
     recs = []
     for i in range(n_records):
